@@ -268,6 +268,13 @@ func (ex *Exec) doAssert(label string, cond *Term) {
 			by = "z3+" + by2
 		}
 	}
+	if res == "sat" && ex.boundedHit {
+		// the violation is "work not bounded": prefer a model with extreme values, so that the native replay
+		// (which has a time limit, not a loop bound) exhibits it
+		if m2 := ex.extremeModel(neg); m2 != nil {
+			model = m2
+		}
+	}
 	rec.Result, rec.Model, rec.By = res, model, by
 	ex.asserts = append(ex.asserts, rec)
 	if cond.IsFalse() {
@@ -282,6 +289,26 @@ func (ex *Exec) doAssert(label string, cond *Term) {
 		}
 	}
 	ex.addPC(cond)
+}
+
+// extremeModel greedily adds "variable >= 2^(w-2)" constraints for the wide nondeterministic inputs while the
+// query stays satisfiable, and returns the resulting model.
+func (ex *Exec) extremeModel(neg *Term) Model {
+	tt := ex.tt
+	cur := neg
+	var best Model
+	vars := append([]*Term{}, ex.sess.vars...)
+	for _, v := range vars {
+		if v.kind != KBV || v.w < 8 {
+			continue
+		}
+		c := tt.BAnd(cur, tt.Cmp(OUle, tt.BV(v.w, uint64(1)<<uint(v.w-2)), v))
+		r, m := ex.sess.CheckZ3(c, true)
+		if r == "sat" {
+			cur, best = c, m
+		}
+	}
+	return best
 }
 
 func (ex *Exec) doReach(label string) {
